@@ -189,7 +189,7 @@ func (p *Project) SourceFiles() map[string]string {
 	for _, k := range keys {
 		a := accs[k]
 		var b strings.Builder
-		fmt.Fprintf(&b, "package %s\n\n", a.pkg)
+		fmt.Fprintf(&b, "package %s\n\n", PkgName(a.pkg))
 		if len(a.imports) > 0 {
 			imps := make([]string, 0, len(a.imports))
 			for i := range a.imports {
